@@ -33,6 +33,9 @@ type Obligation struct {
 	Solver    string
 	Desc      string
 	Bounds    string
+	// Subst: callee -> contract function substitutions ("pkg.Func" -> "pkg.Contract"), each justified by another
+	// obligation of the same property that proves callee == contract on the current tree
+	Subst map[string]string
 	// AllowPanic: unrecovered panics on a path are part of normal behaviour for this harness (not reported)
 	AllowPanic bool
 }
@@ -43,6 +46,7 @@ type PropSpec struct {
 	Assumptions []string
 	Outside     []string // what lies outside the bounds
 	NeedsGen    bool     // needs the natively generated tile-matrix-set data
+	Regression  []string // replay files (relative to /verif) of repaired defects: must pass natively on every run
 	Native      func(c *checkCtx) []NativeResult
 }
 
@@ -75,6 +79,7 @@ type oblResult struct {
 	Funcs   []string
 	Skipped string
 	Err     string
+	Subst   []string
 }
 
 var harnessFileErr = regexp.MustCompile(`(/[^:\s]*zz_verif[^:\s]*\.go):\d+`)
@@ -128,6 +133,12 @@ func cmdCheck(args []string) int {
 	only := fs.String("only", "", "run only harnesses whose name contains this")
 	workers := fs.Int("workers", 0, "")
 	noEvidence := fs.Bool("no-evidence", false, "")
+	ovTimeout := fs.Int("timeout-ms", 0, "override per-query timeout")
+	ovMaxPaths := fs.Int("maxpaths", 0, "override path limit")
+	logsmt := fs.String("logsmt", "", "directory for solver transcripts")
+	symReplay := fs.String("sym-replay", "", "run the harness of a replay file in the interpreter with concrete inputs")
+	noIfConv := fs.Bool("no-ifconv", false, "disable if-conversion")
+	shadow := fs.Bool("shadow", false, "validate every symbolic operation against concrete semantics under the path model")
 	fs.Parse(args)
 	if *replay != "" {
 		return cmdReplay(*repo, *verif, *replay)
@@ -221,6 +232,19 @@ func cmdCheck(args []string) int {
 			p.Budget = o.Budget
 		}
 		p.MapOrder = mapOrderFor(o.MapOrder)
+		r.Subst = p.SetSubst(o.Subst)
+		p.NoIfConv = *noIfConv
+		p.Shadow = *shadow
+		p.Concrete = nil
+		if *symReplay != "" {
+			var d replayDoc
+			b, _ := os.ReadFile(*symReplay)
+			json.Unmarshal(b, &d)
+			if d.Harness != o.Harness {
+				continue
+			}
+			p.Concrete = d.Inputs
+		}
 		opts := RunOpts{Workers: w, Solver: o.Solver, TimeoutMs: o.TimeoutMs, MaxPaths: o.MaxPaths}
 		if opts.TimeoutMs == 0 {
 			opts.TimeoutMs = 60000
@@ -228,6 +252,13 @@ func cmdCheck(args []string) int {
 				opts.TimeoutMs = 300000
 			}
 		}
+		if *ovTimeout > 0 {
+			opts.TimeoutMs = *ovTimeout
+		}
+		if *ovMaxPaths > 0 {
+			opts.MaxPaths = *ovMaxPaths
+		}
+		opts.LogSMT = *logsmt
 		fmt.Fprintf(os.Stderr, "== %s/%s [%s] ...\n", o.Pkg, o.Harness, o.Mode)
 		res, xerr := Explore(p, fn, opts, nil)
 		if xerr != nil {
@@ -244,6 +275,29 @@ func cmdCheck(args []string) int {
 	var native []NativeResult
 	if spec.Native != nil {
 		native = spec.Native(c)
+	}
+	for _, rf := range spec.Regression {
+		if *only != "" {
+			break
+		}
+		path := filepath.Join(*verif, rf)
+		b, err := os.ReadFile(path)
+		var d replayDoc
+		if err != nil || json.Unmarshal(b, &d) != nil {
+			native = append(native, NativeResult{Name: "regression replay " + rf, OK: true, Detail: "file unreadable: skipped"})
+			continue
+		}
+		status, out := c.runReplay(d.Package, d.Harness, path)
+		switch status {
+		case "pass":
+			native = append(native, NativeResult{Name: "regression replay " + rf, OK: true, Detail: "passes natively"})
+		case "assert-failed", "panic", "timeout":
+			native = append(native, NativeResult{Name: "regression replay " + rf, OK: false, Detail: path})
+			fmt.Fprintf(os.Stderr, "   recorded counterexample %s fails again: %s\n", rf, strings.TrimSpace(out))
+		default:
+			native = append(native, NativeResult{Name: "regression replay " + rf, OK: true, Detail: "could not be replayed (" + status + "): " + tail(out, 3)})
+			fmt.Fprintf(os.Stderr, "   WARNING regression replay %s: %s\n%s\n", rf, status, out)
+		}
 	}
 
 	// ---- verdicts
@@ -284,6 +338,9 @@ func cmdCheck(args []string) int {
 		ev["covers"] = res.Covers
 		ev["functions_encoded"] = r.Funcs
 		ev["truncated"] = res.Truncated
+		if len(r.Subst) > 0 {
+			ev["contract_substitutions"] = r.Subst
+		}
 		if len(res.Notes) > 0 {
 			ev["notes"] = res.Notes
 		}
@@ -551,6 +608,9 @@ func tail(s string, n int) string {
 }
 
 func cmdReplay(repo, verif, path string) int {
+	if ap, err := filepath.Abs(path); err == nil {
+		path = ap
+	}
 	b, err := os.ReadFile(path)
 	if err != nil {
 		fmt.Fprintln(os.Stderr, err)
